@@ -2,6 +2,12 @@
 """regenerates MANIFEST.json from the table below (kept valid at all times)"""
 import json
 CLAIMED = {
+ "C16": ("jobs: only FIFO-preserving operations on job queues, job types consumed by value and not Clone, budget/non-budget opcode handlers identical up to the budget subtraction, kept objects cleared per batch",
+         "who-may-call on queue fields discovered by type + ADT/impl facts + sibling comparison of the 2x256 generated handlers", "§5 C16"),
+ "C17": ("modules: status transition relation extracted from every transition closure is a subset of the specification's and Evaluated is terminal; the module body is executed only behind status guards",
+         "path-sensitive typestate extraction over MIR closures + who-may-call/dominance", "§5 C17"),
+ "C18": ("JSON.parse: ECMA-404 pre-validation dominates parsing and evaluation of the same text; JSON parse/compile modes set (thin: one necessary clause)",
+         "dominance + provenance rule over the MIR of Json::parse", "§5 C18"),
  "C14": ("arrays: hash-ordered index iteration is sorted before it can be observed; dense fast paths guarded by is_array (and extensibility for writes)",
          "who-consumes + dominance rules over MIR call sites of the index iterators and dense accessors", "§5 C14"),
  "C20": ("determinism/isolation: no script value reachable from static or thread-local state; seed/address-ordered hash iteration never reaches observable order; realm swap paired",
